@@ -114,43 +114,86 @@ def reconstruct_db(events, upto_event_idx, names):
     return db
 
 
-def eval_body(atoms, tid_of, db, small_only=True, new_since=None):
-    """nested-loop evaluation -> set of substitutions (as tuples over sorted var names)"""
-    vs = gen.body_vars(atoms)
+def eval_body(atoms, tid_of, db, small_only=True, new_since=None, head=None, include_subsumed=False):
+    """meaning of the body on a concrete database -> set of head tuples (default head: every variable,
+    sorted by name).  small_only: ignore profile rows (sound only when every atom shares a variable with the
+    head; callers pass False otherwise).  Index nested-loop join: rows of each atom are indexed on the
+    positions already bound when the atom is reached."""
+    vs = head if head is not None else gen.body_vars(atoms)
     res = set()
+    # static binding order: which entries of atom i are bound (constant or earlier variable) on arrival
+    bound_vars = set()
+    plans = []
+    for a in atoms:
+        ents = list(a.args) + ([a.ret] if a.is_func else [])
+        bpos, seen_here = [], {}
+        for pos, e in enumerate(ents):
+            if e[0] == "c" or e[1] in bound_vars:
+                bpos.append(pos)
+        plans.append((ents, bpos))
+        for e in ents:
+            if e[0] == "v":
+                bound_vars.add(e[1])
+    indexes = []
+    for a, (ents, bpos) in zip(atoms, plans):
+        idx = {}
+        for key, (val, ts, sub) in db.get(tid_of[a.name], {}).items():
+            if sub and not include_subsumed:
+                continue
+            if small_only and any(k >= gen.BIG for k in key):
+                continue
+            row = tuple(key) + ((val,) if a.is_func else ())
+            idx.setdefault(tuple(row[p] for p in bpos), []).append((row, ts))
+        indexes.append(idx)
 
     def rec(i, env, any_new):
         if i == len(atoms):
             if new_since is None or any_new:
                 res.add(tuple(env[v] for v in vs))
             return
-        a = atoms[i]
-        for key, (val, ts, sub) in db.get(tid_of[a.name], {}).items():
-            if sub:
-                continue
-            if small_only and any(k >= gen.BIG for k in key):
-                continue
-            e2 = dict(env)
+        ents, bpos = plans[i]
+        probe = tuple(ents[p][1] if ents[p][0] == "c" else env[ents[p][1]] for p in bpos)
+        for row, ts in indexes[i].get(probe, ()):
+            e2 = env
             ok = True
-            ents = list(zip(a.args, key))
-            if a.is_func:
-                ents.append((a.ret, val))
-            for e, x in ents:
-                if e[0] == "c":
-                    if e[1] != x:
-                        ok = False
-                        break
-                else:
+            for pos, e in enumerate(ents):
+                if e[0] == "v":
                     if e[1] in e2:
-                        if e2[e[1]] != x:
+                        if e2[e[1]] != row[pos]:
                             ok = False
                             break
                     else:
-                        e2[e[1]] = x
+                        if e2 is env:
+                            e2 = dict(env)
+                        e2[e[1]] = row[pos]
             if ok:
                 rec(i + 1, e2, any_new or (new_since is not None and ts >= new_since))
     rec(0, {}, False)
     return res
+
+
+def profile_db(atoms, profile, seed, tid_of):
+    """the seeded (big-range) rows, as a database with timestamp 0"""
+    sig = gen.signature(atoms)
+    pname, default, over = profile
+    db = {}
+    for name, ar in sorted(sig.items()):
+        rows = {}
+        for key, val in gen.profile_rows(name, ar, name[0].islower(), over.get(name, default), seed):
+            rows[tuple(key)] = (val, 0, 0)
+        db[tid_of[name]] = rows
+    return db
+
+
+def merged(base, db):
+    out = {tid: dict(rows) for tid, rows in base.items()}
+    for tid, rows in db.items():
+        out.setdefault(tid, {}).update(rows)
+    return out
+
+
+def all_small(t):
+    return all(x < gen.BIG for x in t)
 
 
 # ------------------------------------------------------------------------------------------------
@@ -191,12 +234,13 @@ def strip_sizes(o):
 
 
 class Validator:
-    def __init__(self, atoms, funcs_ev, include_subsumed=False):
+    def __init__(self, atoms, funcs_ev, include_subsumed=False, head=None):
         self.atoms = atoms
         self.names = {f["table"]: f for f in funcs_ev["funcs"]}
         self.tid_of = {f["name"]: f["table"] for f in funcs_ev["funcs"]}
         self.out_tid = self.tid_of["Out"]
-        self.vs = gen.body_vars(atoms)
+        self.vs = head if head is not None else gen.body_vars(atoms)
+        self.projecting = set(self.vs) != set(gen.body_vars(atoms))
         self.include_subsumed = include_subsumed
         self.solver_s = 0.0
         self.queries = 0
@@ -243,6 +287,13 @@ class Validator:
             in_new = in_all
         else:
             raise model.ModelError("sole_focus rules are not generated by E2")
+        # When the head projects variables away, a new match whose head tuple is ALSO produced by an all-old match
+        # need not be re-derived (the tuple is in the database already): what must be emitted is All \ AllOld.
+        not_old = z3.BoolVal(True)
+        if self.projecting and rule_rec["seminaive"] and mid > 0:
+            not_old = z3.Not(z3.Or([z3.And(c, z3.And([x < mid for x in tss]), *[a == b for a, b in zip(t, tup)])
+                                    for c, t, tss, _ in src]))
+            in_new = z3.And(in_new, not_old)
         # hook consistency: what the real add_rule_from_cached_plan built for a kept variant must be what
         # variant_plan() reconstructs for the dropped ones (headers = extra ++ cached headers)
         vplans = []
@@ -269,7 +320,7 @@ class Validator:
             emitted = [memb(model.plan_tuples(vp, tables, self.out_tid, nts, "inst", cands), t) for vp in vplans]
             lost_inst.append(z3.And(c, is_new, z3.Not(z3.Or(emitted)) if emitted else z3.BoolVal(True),
                                     *[a == b for a, b in zip(t, tup)]))
-        lost_inst = z3.Or(lost_inst)
+        lost_inst = z3.And(z3.Or(lost_inst), not_old)
         res = {"mid": mid, "next_ts": next_ts, "n_variants": len(variants),
                "n_kept": sum(1 for v in variants if v["kept"] is not None)}
         # vacuity: the database constraints admit a match at all, and a new one
@@ -412,31 +463,54 @@ def small_rows(atoms, rnd, max_rows=R):
     return {name: sorted(rows.items()) for name, rows in db.items()}
 
 
-def split_steps(sdb, rnd, schedule):
+def split_steps(sdb, rnd, schedule, with_subsume=False):
     """Distribute the small rows over the steps of `schedule` (a list of ruleset names): each row is written
     either at top level before some step ('pre') or by a rule during some step but the last ('aux').
-    -> (steps for render_program, placement: list of (name, key, val, step, 'pre'|'aux'))"""
+    with_subsume: some relation rows are later subsumed (at top level or by a rule), and some subsumed tuples are
+    inserted again afterwards (they must stay subsumed).
+    -> (steps for render_program, timeline: list of (step, 'pre'|'aux', 'ins'|'sub', name, key, val) in program order)"""
     n = len(schedule)
     steps = [{"ruleset": rs, "pre": [], "aux": []} for rs in schedule]
-    placed = []
+    timeline = []
+
+    def emit(k, how, kind, name, key, val):
+        if kind == "ins":
+            steps[k][how].append(gen.fact_text(name, key, val, name[0].islower()))
+        else:
+            steps[k][how].append("(subsume (%s %s))" % (name, " ".join(str(x) for x in key)))
+        timeline.append((k, how, kind, name, tuple(key), val))
+
+    later = []
     for name, rows in sorted(sdb.items()):
         for key, val in rows:
             k = rnd.randrange(n)
             how = "aux" if (k < n - 1 and rnd.random() < 0.4) else "pre"
-            steps[k][how].append(gen.fact_text(name, key, val, name[0].islower()))
-            placed.append((name, tuple(key), val, k, how))
-    return steps, placed
+            emit(k, how, "ins", name, key, val)
+            if with_subsume and not name[0].islower() and rnd.random() < 0.45:
+                # subsume strictly later in program order: a later step, or later in the same (step, how) list
+                k2 = rnd.randrange(k + 1, n) if how == "aux" else rnd.randrange(k, n)
+                how2 = "aux" if (k2 < n - 1 and k2 > k and rnd.random() < 0.4) else "pre"
+                later.append((k2, how2, "sub", name, key, val))
+                if rnd.random() < 0.4 and k2 < n - 1:
+                    later.append((rnd.randrange(k2 + 1, n), "pre", "ins", name, key, val))
+    for ev in later:
+        emit(*ev)
+    # program order: by step; inside a step all 'pre' commands come before the run, 'aux' actions happen during it
+    order = {"pre": 0, "aux": 1}
+    timeline.sort(key=lambda e: (e[0], order[e[1]]))
+    return steps, timeline
 
 
-def db_at_step(placed, step, prev_step, tid_of, mid):
+def db_at_step(timeline, step, prev_step, tid_of, mid):
     """table id -> {key: (val, ts, sub)} as it stands when the run of step `step` starts, for a rule whose
     previous run was step `prev_step` (None: never ran; then mid == 0).  Timestamps are synthetic but ordered
-    like the real ones relative to `mid` (= that rule's last_run_at): rows written before the previous run
-    -> mid-1; written by a rule DURING the previous run -> mid; anything later -> mid+1."""
+    like the real ones relative to `mid` (= that rule's last_run_at): written before the previous run
+    -> mid-1; written by a rule DURING the previous run -> mid; anything later -> mid+1.  Subsuming a row
+    re-stamps it; inserting an existing tuple again changes nothing."""
     db = {}
-    for name, key, val, k, how in placed:
+    for (k, how, kind, name, key, val) in timeline:
         if k > step or (k == step and how == "aux"):
-            continue  # not written yet
+            continue  # has not happened yet
         if prev_step is None:
             ts = 0
         elif k < prev_step or (k == prev_step and how == "pre"):
@@ -445,7 +519,13 @@ def db_at_step(placed, step, prev_step, tid_of, mid):
             ts = mid
         else:
             ts = mid + 1
-        db.setdefault(tid_of[name], {})[key] = (val, ts, 0)
+        rows = db.setdefault(tid_of[name], {})
+        if kind == "ins":
+            if key not in rows:
+                rows[key] = (val, ts, 0)
+        else:
+            if key in rows and rows[key][2] == 0:
+                rows[key] = (rows[key][0], ts, 1)
     return db
 
 
@@ -478,7 +558,7 @@ def step_events(events, trig_tid):
     for i, ev in enumerate(events):
         if ev.get("ev") != "run":
             continue
-        if any(rr["atoms"] for rr in ev["rules"]):
+        if any(rr["atoms"] and rr["desc"] != "check_facts" for rr in ev["rules"]):
             idx.append(i)
     return idx
 
@@ -487,7 +567,7 @@ def step_events(events, trig_tid):
 # witness replay through the real binary
 
 
-def witness_program(atoms, no_decomp, profile, wit, mid):
+def witness_program(atoms, no_decomp, profile, wit, mid, head=None):
     """rows with ts < mid: top level before run 1; ts == mid: written by a rule during run 1;
     ts > mid: top level after run 1.  Subsumed rows: inserted, then `(subsume ...)` in the same class."""
     cls = {"old": [], "mid": [], "new": []}
@@ -508,12 +588,12 @@ def witness_program(atoms, no_decomp, profile, wit, mid):
         steps = [{"ruleset": "main", "pre": cls["old"], "aux": cls["mid"]}, {"ruleset": "main", "pre": cls["new"], "aux": []}]
     else:
         steps = [{"ruleset": "main", "pre": cls["old"], "aux": []}]
-    return gen.render_program(atoms, no_decomp, profile, steps)
+    return gen.render_program(atoms, no_decomp, profile, steps, head=head)
 
 
-def replay_witness(binary, workdir, tag, atoms, no_decomp, profile, wit, rule_rec, plan_key):
+def replay_witness(binary, workdir, tag, atoms, no_decomp, profile, wit, rule_rec, plan_key, head=None, seed=0):
     """-> (reproduced: bool|None, note, program, expected, real)"""
-    prog = witness_program(atoms, no_decomp, profile, wit, rule_rec["mid_ts"])
+    prog = witness_program(atoms, no_decomp, profile, wit, rule_rec["mid_ts"], head)
     if prog is None:
         return None, "witness subsumes a row of a merge function; not replayable from the surface language", "", set(), set()
     rc, out, err, events = run_program(binary, prog, workdir, tag)
@@ -537,7 +617,11 @@ def replay_witness(binary, workdir, tag, atoms, no_decomp, profile, wit, rule_re
                     continue  # database as it stood at the first run
                 rows[tuple(row[:fc - 1])] = (row[fc - 1], ts, row[fc + 1] if t["subsume"] else 0)
             cdb[tid_of[name]] = rows
-        exp |= eval_body(atoms, tid_of, cdb)
+        if head is not None and set(head) != set(gen.body_vars(atoms)):
+            exp |= {t for t in eval_body(atoms, tid_of, merged(profile_db(atoms, profile, seed, tid_of), cdb),
+                                         small_only=False, head=head) if all_small(t)}
+        else:
+            exp |= eval_body(atoms, tid_of, cdb, head=head)
     note += "real Out (small range): %s\nexpected (nested-loop meaning of the body at each run): %s\n" % (sorted(real), sorted(exp))
     note += "plan keys in replay: %s ; plan under test: %s\n" % (keys, plan_key)
     if real != exp:
@@ -611,17 +695,40 @@ def work_item(args):
            "plans": [], "errors": [], "violations": [], "sanity": [], "chain": [], "cover": [], "solver_s": 0.0, "queries": 0}
     try:
         atoms = gen.parse_body(body)
+        head = gen.head_vars(body)
         tag = "%s_%s_%s_%s_%d" % (sid, "nd" if no_decomp else "d", profile[0], res["schedule"], seed)
         rnd = random.Random(zlib.crc32(tag.encode()))
         sdb = small_rows(atoms, rnd)
-        steps, placed = split_steps(sdb, rnd, schedule)
-        text = gen.render_program(atoms, no_decomp, profile, steps, seed=seed, rules=rules)
+        steps, placed = split_steps(sdb, rnd, schedule, with_subsume=(prop == "C13"))
+        tail = None
+        check_expect = None
+        if prop == "C13":
+            # (check body) sees subsumed rows; its expected outcome comes from the whole final database
+            tid_guess = None
+            body_txt = " ".join(a.render() for a in atoms)
+            tail = ["(check %s)" % body_txt]
+        text = gen.render_program(atoms, no_decomp, profile, steps, seed=seed, rules=rules, head=head, tail=tail)
         rc, out, err, events = run_program(binary, text, workdir, tag)
+        check_failed = False
+        if prop == "C13" and rc != 0 and "Check failed" in err:
+            # the check did not hold: everything before it still ran and was dumped; printed tables are missing,
+            # so re-run without the check to read them
+            check_failed = True
+            text2 = gen.render_program(atoms, no_decomp, profile, steps, seed=seed, rules=rules, head=head, tail=None)
+            rc, out, err2, _ = run_program(binary, text2, workdir, tag + "_nocheck")
         if rc != 0:
             res["errors"].append("egglog exited %d on generated program %s: %s" % (rc, tag, err[-400:]))
             return res
         funcs = [e for e in events if e["ev"] == "funcs"][-1]
-        V = Validator(atoms, funcs)
+        V = Validator(atoms, funcs, head=head)
+        base = profile_db(atoms, profile, seed, V.tid_of) if V.projecting else {}
+
+        def meaning(cdb, **kw):
+            # with a projecting head, profile rows can match atoms that share no variable with the head
+            if V.projecting:
+                return {t for t in eval_body(atoms, V.tid_of, merged(base, cdb), small_only=False, head=head, **kw) if all_small(t)}
+            return eval_body(atoms, V.tid_of, cdb, head=head, **kw)
+        pin_ok = (not V.projecting) or not any(base.values())
         sev = step_events(events, None)
         if len(sev) != len(schedule):
             res["errors"].append("%s: %d scheduled runs but %d run events with body rules in the dump" % (tag, len(schedule), len(sev)))
@@ -654,19 +761,26 @@ def work_item(args):
                 if rr["seminaive"] == naive:
                     res["errors"].append("%s: rule options %r but dumped seminaive=%s" % (tag, ropts, rr["seminaive"]))
                 cdb = db_at_step(placed, k, prev, V.tid_of, rr["mid_ts"])
-                exp |= eval_body(atoms, V.tid_of, cdb)
+                exp |= meaning(cdb)
                 key = norm_plan_key(rr, variants)
                 # --- model vs body meaning on this concrete database (every program, every run)
                 try:
+                    if not pin_ok:
+                        raise StopIteration
                     po = V.pinned_outputs(rr, variants, cdb)
-                    want_all = eval_body(atoms, V.tid_of, cdb)
-                    want = want_all if naive else eval_body(atoms, V.tid_of, cdb, new_since=rr["mid_ts"])
+                    want_all = meaning(cdb)
+                    want = want_all if naive else meaning(cdb, new_since=rr["mid_ts"])
+                    if not naive and rr["mid_ts"] > 0:
+                        old_db = {tid: {k_: r_ for k_, r_ in rows.items() if r_[1] < rr["mid_ts"]} for tid, rows in cdb.items()}
+                        want = want - meaning(old_db)
                     ok = want <= po <= want_all
                     res["sanity"].append({"tag": tag, "ruleset": rs, "step": k, "model_out": len(po), "new": len(want),
                                           "all": len(want_all), "agree": ok, "key": key})
                     if not ok:
                         res["errors"].append("%s step %d: the model of plan %s, pinned to the concrete database, emits %s; "
                                              "new matches %s, all matches %s" % (tag, k, key, sorted(po), sorted(want), sorted(want_all)))
+                except StopIteration:
+                    pass
                 except model.ModelError as e:
                     res["errors"].append("%s: %s" % (tag, e))
                 prev, prev_next_ts = k, rr["next_ts"]
@@ -691,7 +805,7 @@ def work_item(args):
                     res["errors"].append("%s: vacuous: no database within the bounds has a new match (%s)" % (tag, v.get("witness_new_match_possible")))
                 if "witness" in v:
                     w = v["witness"]
-                    rep, note, prog, wexp, wreal = replay_witness(binary, workdir, tag + "_replay", atoms, no_decomp, profile, w, rr, key)
+                    rep, note, prog, wexp, wreal = replay_witness(binary, workdir, tag + "_replay", atoms, no_decomp, profile, w, rr, key, head, seed)
                     art = os.path.join(workdir, "%s.%s.witness.txt" % (tag, key))
                     write_artefact(art, prop, "solver witness (%s match) for plan %s" % (w["kind"], key), prog, wexp, wreal,
                                    "shape=%s body=%s no_decomp=%s profile=%s\nwitness=%s\n%s"
@@ -707,6 +821,53 @@ def work_item(args):
                                          % (tag, key, cq, cw))
             real_all[outrel], exp_all[outrel] = real, exp
             res["sanity"].append({"tag": tag, "ruleset": rs, "real_out": len(real), "expected": len(exp), "agree": real == exp})
+        if prop == "C13":
+            final = db_at_step(placed, len(schedule), None, V.tid_of, 0)
+            fullbase = profile_db(atoms, profile, seed, V.tid_of)
+            holds = bool(eval_body(atoms, V.tid_of, merged(fullbase, final), small_only=False, head=[], include_subsumed=True))
+            res["sanity"].append({"tag": tag, "check_expected": holds, "check_real": not check_failed, "agree": holds != check_failed})
+            if holds == check_failed:
+                art = os.path.join(workdir, tag + ".check.txt")
+                write_artefact(art, prop, "(check body) outcome differs from the body's meaning including subsumed rows", text,
+                               {"check": [[int(holds)]]}, {"check": [[int(not check_failed)]]}, "shape=%s" % sid)
+                res["violations"].append({"key": "check:" + tag, "what": "(check %s) %s but the body %s on the final database (subsumed rows included)"
+                                          % (body, "failed" if check_failed else "passed", "holds" if holds else "does not hold"),
+                                          "replay": art, "reproduced": True})
+            # the dumped plan of the check: must see subsumed rows (include_subsumed) -- solver obligation
+            VC = Validator(atoms, funcs, include_subsumed=True, head=[])
+            VC.out_tid = None
+            for i, ev in enumerate(events):
+                if ev.get("ev") != "run":
+                    continue
+                for rr in ev["rules"]:
+                    if rr["desc"] != "check_facts" or not rr["atoms"]:
+                        continue
+                    lo, hi = rr["variants"]
+                    variants = ev["ruleset"]["variants"][lo:hi]
+                    key = "chk-" + norm_plan_key(rr, variants)
+                    if key in seen_keys:
+                        continue
+                    seen_keys[key] = tag
+                    try:
+                        v = VC.validate_run(rr, variants, ev["ruleset"]["plans"])
+                    except model.ModelError as e:
+                        res["errors"].append("%s: check plan outside the model: %s" % (tag, e))
+                        continue
+                    res["plans"].append({"key": key, "tag": tag, "kind": rr["cached"]["plan"]["kind"], "blocks": len(rr["cached"]["plan"].get("blocks", [])),
+                                         "mid0": True, "n_atoms": len(rr["atoms"]), "seminaive": rr["seminaive"], "cover": "unsat", "check_plan": True,
+                                         "verdict": {k_: v[k_] for k_ in v if k_ != "witness"}})
+                    if v.get("witness_new_match_possible") != "sat":
+                        res["errors"].append("%s: vacuous check-plan query" % tag)
+                    if "witness" in v:
+                        w = v["witness"]
+                        res["violations"].append({"key": "check-%s:%s" % (w["kind"], sid),
+                                                  "what": "check plan %s: %s binding (subsumed rows must be visible to check): witness %s"
+                                                  % (key, w["kind"], json.dumps(w["db"])), "replay": "", "reproduced": False,
+                                                  "replay_status": None})
+                    elif [k_ for k_ in ("spurious", "lost") if v.get(k_) not in ("unsat", None)]:
+                        res["errors"].append("%s: solver returned %s on the check plan" % (tag, v))
+            res["solver_s"] += VC.solver_s
+            res["queries"] += VC.queries
         if real_all != exp_all:
             art = os.path.join(workdir, tag + ".concrete.txt")
             write_artefact(art, prop, "concrete cross-check: the real engine's output differs from the nested-loop meaning of the body",
@@ -715,8 +876,8 @@ def work_item(args):
                                       "history (found by the concrete cross-check of the model, no solver involved): real %s expected %s"
                                       % ({k: sorted(v) for k, v in real_all.items()}, {k: sorted(v) for k, v in exp_all.items()}),
                                       "replay": art, "reproduced": True})
-        res["solver_s"] = V.solver_s
-        res["queries"] = V.queries
+        res["solver_s"] += V.solver_s
+        res["queries"] += V.queries
     except Exception as e:  # noqa
         import traceback
         res["errors"].append("driver exception in %s: %r\n%s" % (sid, e, traceback.format_exc()[-1500:]))
@@ -766,6 +927,15 @@ def configs_for(prop, tier, seed):
                 continue
             cfgs = [(nd, prof, sd, sc, rl) for sc in scheds for rl in rule_sets for prof in profs
                     for nd in ((False,) if quick else (False, True)) for sd in (seeds if not quick else seeds[:1])]
+            items.append((sid, body, cfgs))
+    elif prop == "C13":
+        rules = {"main": ("Out", "")}
+        profs = [p for p in profiles if p[0] in (("p0", "p3", "p60") if quick else ("p0", "p3", "p60", "skew", "p400"))]
+        for sid, body in shapes:
+            if any(a.is_func for a in gen.parse_body(body)):
+                continue  # merge functions cannot be subsumed
+            cfgs = [(nd, prof, sd, sc, rules) for sc in (["main", "main"], ["main", "main", "main"]) for prof in profs
+                    for nd in (False, True) for sd in (seeds if not quick else seeds[:1])]
             items.append((sid, body, cfgs))
     else:
         raise SystemExit("no E2 configuration for " + prop)
